@@ -157,6 +157,34 @@ def cli_sample(bins, pid, tier, seed):
             r = fx.monorail(["target", "render", "-f", "/dev/full"], limit_as=2 << 30)
             if r["rc"] == 0:
                 a_recs.append({"ev": "edges", "config": cfg, "out": {"ok": True, "nodes": [], "edges": []}, "via": "render_to_dev_full"})
+            # output shapes as a function of the flags (Cli.tla; beyond the listed properties: drift notes only)
+            if pid == "C03":
+                def shape_analyze(cp_exists):
+                    fl = {"changes": rng.random() < 0.5, "change_targets": rng.random() < 0.5, "target_groups": rng.random() < 0.3}
+                    allf = rng.random() < 0.2
+                    args = ["analyze"] + (["--all"] if allf else [x for k, x in (("changes", "--changes"), ("change_targets", "--change-targets"),
+                                                                              ("target_groups", "--target-groups")) if fl[k]])
+                    if allf:
+                        fl = {"changes": True, "change_targets": True, "target_groups": True}
+                    r = fx.monorail(args)
+                    if r["rc"] == 0 and isinstance(r["out"], dict):
+                        o = r["out"]
+                        a_recs.append({"ev": "shape", "api": "analyze", "flags": fl, "keys": sorted(o.keys()),
+                                       "change_has_targets": sorted({("targets" in c) for c in (o.get("changes") or [])}),
+                                       "checkpointed": bool(o.get("checkpointed")), "cp_exists": cp_exists})
+                shape_analyze(False)
+                fl = {"target_groups": rng.random() < 0.4, "commands": rng.random() < 0.5, "argmaps": rng.random() < 0.5}
+                r = fx.monorail(["target", "show"] + [x for k, x in (("target_groups", "-g"), ("commands", "--commands"), ("argmaps", "--argmaps")) if fl[k]])
+                if r["rc"] == 0 and isinstance(r["out"], dict):
+                    tl = r["out"].get("targets") or []
+                    a_recs.append({"ev": "shape", "api": "target_show", "flags": fl, "keys": sorted(r["out"].keys()),
+                                   "any_commands": any("commands" in t for t in tl), "any_argmaps": any("argmaps" in t for t in tl)})
+                if fx.monorail(["checkpoint", "update"])["rc"] == 0:
+                    with open(os.path.join(fx.repo, ts[0]["path"], "src.txt"), "a") as f:
+                        f.write("edit\n")
+                    shape_analyze(True)
+                    shape_analyze(True)
+                    fx.monorail(["checkpoint", "delete"])
             # run: all targets, and -t X --deps for one target
             for mode, named in (("all", []), ("targets_deps", [rng.choice(ts)["path"]])):
                 fx.reset_helper()
@@ -270,6 +298,14 @@ def run(pid, tier):
             keep = {"C10": ("edges",), "C03": ("groups",), "C09": ("groups",)}[pid]
             cli = [r for r in a_recs if r["ev"] in keep]
             records += cli
+            shapes = [r for r in a_recs if r["ev"] == "shape"]
+            if shapes:
+                sf, _, _ = vlib.judge("JudgeA", shapes, shards=1)
+                chk.cov["cli_output_shapes_judged"] = len(shapes)
+                if sf:
+                    chk.notes.append({"MODEL-DRIFT": "%d command-line outputs do not have the shape Cli.tla gives for their flags" % len(sf),
+                                      "first": sf[0][0], "why": sf[0][1]})
+                    print("NOTE: MODEL-DRIFT output shape: %s" % sf[0][1])
             chk.cov["cli_records"] = len(cli) + (len(r_recs) if pid != "C10" else 0)
             if pid != "C10":
                 rf, st2, tr2 = vlib.judge("RunJudge", r_recs, shards=2)
